@@ -445,6 +445,8 @@ def serverSuites (ss : Settings) (sc : ServerCfg) (o : Offer) (v : Nat) : Outcom
 /-- `_pickServerKeyExchangeSig(settings, clientHello, cert, key, version, False)`:
     some 0 = "no scheme needed" (None / "sha1" defaults) -/
 def pickSig (ss : Settings) (o : Offer) (cred : Option Cred) (v : Nat) : Option Nat :=
+  -- before TLS 1.2 the ServerKeyExchange signature has a fixed form: signature_algorithms does not apply
+  if v < 3 then some 0 else
   match o.sigAlgs with
   | none => some 0
   | some algs => firstMatching (sigHashesToList ss none cred v) algs
@@ -469,10 +471,16 @@ def checkServerCurve (sc : ServerCfg) (o : Offer) (v : Nat) : Outcome Unit :=
     else pure ()
   | none => pure ()
 
+/-- `filter_for_certificate`, and nothing for an EdDSA key below TLS 1.2 (it cannot sign the
+    ServerKeyExchange of those versions) -/
+def certUsable (suites : List Nat) (cred : Option Cred) (v : Nat) : List Nat :=
+  if v < 3 && cred.any (fun c => c.certAlg == "Ed25519" || c.certAlg == "Ed448") then []
+  else filterForCertificate suites cred
+
 /-- `_server_select_certificate` with a single (cert, key) pair: suite and signature scheme -/
 def selectCertificate (ss : Settings) (sc : ServerCfg) (o : Offer) (suites : List Nat) (v : Nat) :
     Outcome (Nat × Nat) :=
-  match (prfFiltered ss o v (filterForCertificate suites sc.cred)).find? (o.suites.contains ·) with
+  match (prfFiltered ss o v (certUsable suites sc.cred v)).find? (o.suites.contains ·) with
   | none =>
     if (o.groups.getD []).any (fun g => 256 ≤ g && g < 512) && o.suites.any (dhAllSuites.contains ·)
     then Outcome.alert .server "insufficient_security"
@@ -576,8 +584,7 @@ def dhSelect (ss : Settings) (sc : ServerCfg) (o : Offer) (suite : Nat) : Outcom
         match firstMatching cg (groupNamesToList ss) with
         | some g => .ok (ffBitsOf g)
         | none =>
-          if cg.any (fun g => 256 ≤ g && g < 512) then
-            (if isAnonSuite suite then .abort .server "TLSInternalError" else .alert .server "internal_error")
+          if cg.any (fun g => 256 ≤ g && g < 512) then .alert .server "internal_error"
           else .ok own
       else .ok own
     | none => .ok own
@@ -593,8 +600,7 @@ def ecSelect (ss : Settings) (o : Offer) (v suite : Nat) : Outcome Nat :=
               | none => (groupId ss.defaultCurve).toList
     match firstMatching cc (curveNamesToList ss v) with
     | some g => .ok g
-    | none => if isAnonSuite suite then .abort .server "TLSInsufficientSecurity"
-              else .alert .server "insufficient_security"
+    | none => .alert .server "insufficient_security"
   else .ok 0
 
 /-- TLS ≤ 1.2 part of the server's first flight (`_handshakeServerAsyncHelper`) -/
@@ -616,8 +622,7 @@ def serverSelect12 (ss : Settings) (sc : ServerCfg) (o : Offer) (v suite sig : N
   -- TypeError, with an rsa-pss key the self-check fails (TLSInternalError)
   let certAlg := (sc.cred.map (·.certAlg)).getD ""
   if signed && v < 3 && (certAlg == "Ed25519" || certAlg == "Ed448") then Outcome.abort .server "TypeError" else
-  if signed && v < 3 && certAlg == "rsa-pss" then
-    (if isSrp then Outcome.abort .server "TLSInternalError" else Outcome.alert .server "internal_error") else
+  if signed && v < 3 && certAlg == "rsa-pss" then Outcome.alert .server "internal_error" else
   let sendsCert := certAllSuites.contains suite || ecdheEcdsaSuites.contains suite || dheDsaSuites.contains suite
   if !(isSrp || isCertKxSuite suite || isAnonSuite suite) then Outcome.abort .server "AssertionError" else
   pure { version := v, suite := suite, etm := etm, ems := ems
@@ -728,6 +733,14 @@ def clientSig13 (cs : Settings) (useCert : Option Cred) (sel : Selection) : Outc
     | none => .alert .client "handshake_failure"
   | _, _ => .ok 0
 
+/-- before sending its Certificate (TLS ≤ 1.2) the client makes sure its key can sign the CertificateVerify -/
+def clientCheckOwnCert (cs : Settings) (useCert : Option Cred) (sel : Selection) : Outcome Unit :=
+  match useCert with
+  | some c => do
+    failIf (sel.version < 3 && (c.certAlg == "Ed25519" || c.certAlg == "Ed448")) .client "handshake_failure"
+    failIf (sel.version == 3 && (sigHashesToList cs (some c.keyBits) (some c) 3).isEmpty) .client "handshake_failure"
+  | none => pure ()
+
 /-- scheme of the client's TLS ≤ 1.2 CertificateVerify -/
 def clientSig12 (cs : Settings) (useCert : Option Cred) (sel : Selection) : Outcome Nat :=
   match useCert, sel.certReq with
@@ -802,8 +815,9 @@ def clientAccept12 (cs : Settings) (cc : ClientCfg) (sc : ServerCfg) (o : Offer)
   clientCheckServerCert cs sc o sel
   clientCheckDhSize cs sel
   clientCheckCertReq sel
-  clientCheckKex cs sel
   let useCert : Option Cred := if sel.certReq.isSome then cc.cred else none
+  clientCheckOwnCert cs useCert sel
+  clientCheckKex cs sel
   let cSig ← clientSig12 cs useCert sel
   pure { version := v, suite := sel.suite, group := sel.group, dhBits := sel.dhBits
          sigScheme := sel.sigScheme
